@@ -211,19 +211,18 @@ class MetadataPdu(AbstractFileDirectiveBase):
 
         metadata_pdu.pdu_file_directive = FileDirectivePduBase.unpack(raw_packet=data)
         metadata_pdu.pdu_file_directive.verify_length_and_checksum(data)
-        current_idx = metadata_pdu.pdu_file_directive.header_len
-        min_expected_len = current_idx + 7
-        if metadata_pdu.pdu_file_directive.pdu_conf.file_flag == LargeFileFlag.LARGE:
-            min_expected_len += 4
-        min_expected_len = max(min_expected_len, metadata_pdu.packet_len)
-        # Minimal length: 1 byte + FSS (4 byte) + 2 empty LV (1 byte)
-        if len(data) < min_expected_len:
-            raise BytesTooShortError(min_expected_len, len(data))
         # Only look at the PDU itself, without the CRC trailer and without trailing data.
         end_of_params = metadata_pdu.packet_len
         if metadata_pdu.pdu_file_directive.pdu_conf.crc_flag == CrcFlag.WITH_CRC:
             end_of_params -= 2
         data = data[:end_of_params]
+        current_idx = metadata_pdu.pdu_file_directive.header_len
+        min_expected_len = current_idx + 7
+        if metadata_pdu.pdu_file_directive.pdu_conf.file_flag == LargeFileFlag.LARGE:
+            min_expected_len += 4
+        # Minimal length: 1 byte + FSS (4 byte) + 2 empty LV (1 byte)
+        if len(data) < min_expected_len:
+            raise BytesTooShortError(min_expected_len, len(data))
         params = MetadataParams(False, ChecksumType.MODULAR, 0, "", "")
         params.closure_requested = bool(data[current_idx] & 0x40)
         params.checksum_type = ChecksumType(data[current_idx] & 0x0F)
